@@ -952,3 +952,46 @@ def c_undeclare(seed):
     return Case('dd.bdd.BDD.undeclare_vars!observed', seed, build, lambda e: e['b'].undeclare_vars(*e['vrs']),
                 lambda e: dict(self=None, vrs=with_len(zset_name(e['vrs']), len(set(e['vrs'])))),
                 lambda e: dict(call='undeclare_vars', vrs=e['vrs'], vars_before=dict(e['names'] and {})))
+
+
+@case('dd.bdd.BDD.pick_iter!observed')
+def c_pick_iter(seed):
+    def build(rnd):
+        env = new_manager(rnd)
+        b = env['b']
+        u = any_ref(env, rnd) if rnd.random() < .8 else rnd.choice([1, -1])      # the constants are corner cases of pick
+        supp = b.support(u)
+        k = rnd.random()
+        if k < .4:
+            care = None
+        else:
+            extra = [nm for nm in env['names'] if nm not in supp]
+            care = set(supp) | set(rnd.sample(extra, rnd.randint(0, len(extra))))
+        env.update(u=u, care=care, supp=supp)
+        return env
+
+    def za(e):
+        care = e['care'] if e['care'] is not None else e['supp']
+        return dict(self=None, u=zint(e['u']), care_vars=with_len(zset_name(care), len(care)))
+    return Case('dd.bdd.BDD.pick_iter!observed', seed, build, lambda e: list(e['b'].pick_iter(e['u'], e['care'])), za,
+                lambda e: dict(call='pick_iter', u=e['u'], care_vars=sorted(e['care']) if e['care'] is not None else None),
+                ret=lambda e, r: [zdict(d, 'name', 'bool') for d in r])
+
+
+@case('dd.bdd.BDD.cube!observed')
+def c_cube(seed):
+    def build(rnd):
+        env = new_manager(rnd)
+        names = env['names']
+        env.update(dvars={nm: rnd.random() < .5 for nm in rnd.sample(names, rnd.randint(0, len(names)))})
+        return env
+    return Case('dd.bdd.BDD.cube!observed', seed, build, lambda e: e['b'].cube(e['dvars']),
+                lambda e: dict(self=None, dvars=zdict(e['dvars'], 'name', 'bool')), lambda e: dict(call='cube', dvars=e['dvars']))
+
+
+@case('dd.bdd.BDD.pick!observed')
+def c_pick(seed):
+    inner = c_pick_iter(seed)
+    return Case('dd.bdd.BDD.pick!observed', seed, inner.build, lambda e: e['b'].pick(e['u'], e['care']), inner.zargs,
+                lambda e: dict(call='pick', u=e['u'], care_vars=sorted(e['care']) if e['care'] is not None else None),
+                ret=lambda e, r: None if r is None else zdict(r, 'name', 'bool'))
